@@ -45,7 +45,7 @@ def c09_case(rnd, cs, job, acc):
     text1 = gen.render(m)
     # ---- intruder: root-level leaf, strictly lowest priority, nothing depends on it
     m2 = copy.deepcopy(m)
-    intr = {"path": ("zz_intruder",), "container": False, "priority": 1}
+    intr = {"path": ("zz_intruder",), "container": False, "priority": 1 if rnd.random() < 0.8 else 0}   # 0: below every value a task can have
     r = rnd.choice(m2["resources"])
     if rnd.random() < 0.1:
         intr["milestone"] = True
